@@ -59,6 +59,17 @@ def step_extract():
         changed = json.loads(out.strip().splitlines()[-1])["changed"]
     except Exception:
         changed = []
+    # tie (a) for FUNCTIONS: the straight-line bit-level code (moves.rs `mod compact`, Move constructors/accessors, Square
+    # helpers, Evaluation::mate_in_ply …) is re-translated from the source text into Wee/Gen/MoveFns.lean; the bridge proofs
+    # (Wee/Proofs/MoveFnsBridge.lean) are re-checked by the lake build of the property modules that import them
+    gen = os.path.join(LEAN, "Wee", "Gen", "MoveFns.lean")
+    before = open(gen).read() if os.path.exists(gen) else ""
+    rc2, out2, err2 = run([sys.executable, os.path.join(VERIF, "tools", "rs2lean.py")])
+    if rc2 != 0:
+        return False, ("TIE-BROKEN rs2lean: " + (out2 + err2).strip())[-600:], changed
+    after = open(gen).read() if os.path.exists(gen) else ""
+    if after != before:
+        changed = list(changed) + ["Wee/Gen/MoveFns.lean"]
     return True, "", changed
 
 
